@@ -45,6 +45,8 @@ def name_src(rep, obj, grid_regex):
         return {"name": obj["name"]} if isinstance(obj, dict) and isinstance(obj.get("name"), str) else "fail"
     if rep == "grid":
         if isinstance(obj, list) and len(obj) > 1:
+            if not obj[0]:
+                return "noCell"
             c0 = obj[0][0]
             if not isinstance(c0, str):
                 return "stale"
@@ -52,6 +54,24 @@ def name_src(rep, obj, grid_regex):
             return {"name": m.group(1)} if m else "fail"
         return "fail"
     return "fail"
+
+
+DF = 10000     # identity token of a block's `.df` object = token of the block + DF
+
+
+def rep_of(obj):
+    """how TableBundle.__init__'s hasattr / isinstance tests classify a block value (shape only, no name extraction)"""
+    if hasattr(obj, "name"):
+        return {"k": "named", "n": obj.name}
+    if isinstance(obj, dict):
+        return {"k": "dict", "n": obj.get("name") if isinstance(obj.get("name"), str) else None}
+    if isinstance(obj, list):
+        if len(obj) > 1:
+            c0 = "nocell" if not obj[0] else ({"s": obj[0][0]} if isinstance(obj[0][0], str) else "notstr")
+        else:
+            c0 = "notstr"
+        return {"k": "grid", "rows": len(obj), "c0": c0}
+    return {"k": "opaque"}
 
 
 def run(tier, seed, model_ok, translator, search=False):
@@ -95,23 +115,22 @@ def run(tier, seed, model_ok, translator, search=False):
             else:
                 gn = nm + ("*" if rng.random() < 0.2 else "")
                 obj = [["**" + gn, ""], ["all"]] if not bad else rng.choice(
-                    [[["**" + gn]], [[5], ["all"]], [["x" + gn], ["all"]], [[" \t**" + gn + " tail"], ["all"]]])
+                    [[["**" + gn]], [[5], ["all"]], [["x" + gn], ["all"]], [[" \t**" + gn + " tail"], ["all"]],
+                     [[], ["all"]], [], [["**"], ["all"]], [["** " + gn], ["all"]]])
             bt = BlockType.TABLE if is_table else rng.choice(
                 [BlockType.METADATA, BlockType.DIRECTIVE, BlockType.BLANK, BlockType.TEMPLATE_ROW])
             blocks.append((bt, obj))
-            abstract.append({"t": is_table, "src": name_src(r, obj, grid_regex), "val": i, "rep": r})
+            abstract.append({"t": is_table, "src": name_src(r, obj, grid_regex), "val": i, "rep": r,
+                             "shape": rep_of(obj), "has_df": hasattr(obj, "df")})
         as_df = rep == "df" or (rep == "mixed" and rng.random() < 0.3)
         case = {"seed": seed, "index": idx, "as_dataframe": as_df,
                 "blocks": [{k: v for k, v in a.items()} for a in abstract]}
         out.count("rep:" + rep)
 
-        # identity tokens: what object the bundle should hold for block i
+        # the object the bundle should hold for block i: its frame when frames are requested and it has one
         def stored(i):
             obj = blocks[i][1]
             return obj.df if (as_df and hasattr(obj, "df")) else obj
-        ids = {}
-        for i in range(n):
-            ids.setdefault(id(stored(i)), []).append(i)
 
         # queries
         qs = [{"q": "len"}, {"q": "iter"}]
@@ -121,14 +140,18 @@ def run(tier, seed, model_ok, translator, search=False):
         ntab = sum(1 for a in abstract if a["t"])
         for i in range(-ntab - 1, ntab + 1):
             qs.append({"q": "getitem_int", "i": i})
+        for ix in ({"b": True}, {"b": False}, "other:float", "other:none", "other:slice", {"s": NAMES[0]}, {"s": "absent"}):
+            qs.append({"q": "getitem", "idx": ix})
 
-        impl = impl_run(TableBundle, TableNameNotUniqueInBundleError, blocks, as_df, qs, stored, n)
+        impl = impl_run(TableBundle, TableNameNotUniqueInBundleError, blocks, as_df, qs, n)
         out.case(case, nontrivial=ntab > 0)
         oracle(abstract, impl, qs, out, case)
         if model_ok:
-            mqs = [dict(q, q="unique") if q["q"] == "getitem_str" else q for q in qs]
-            ops.append({"op": "bundle", "blocks": [{"t": a["t"], "src": a["src"], "val": a["val"]} for a in abstract],
-                        "queries": mqs})
+            mqs = [{"q": "getitem", "idx": {"s": q["n"]}} if q["q"] == "getitem_str" else
+                   (dict(q, idx="other") if q["q"] == "getitem" and isinstance(q["idx"], str) else q) for q in qs]
+            ops.append({"op": "bundle_supplied", "as_df": as_df, "queries": mqs,
+                        "blocks": [dict({"t": a["t"], "rep": a["shape"], "val": a["val"]},
+                                        **({"df": a["val"] + DF} if a["has_df"] else {})) for a in abstract]})
             pend.append(("bundle", case, impl))
 
     if model_ok:
@@ -140,33 +163,32 @@ def run(tier, seed, model_ok, translator, search=False):
     return out
 
 
-def impl_run(TableBundle, NotUnique, blocks, as_df, qs, stored, n):
-    """Build the real bundle and answer the queries; objects are reported as block indices."""
+def impl_run(TableBundle, NotUnique, blocks, as_df, qs, n):
+    """Build the real bundle and answer the queries.  Objects are reported as identity tokens: block index i for the
+    block value itself, i + DF for its `.df` (a value occurring in several blocks gets the indices in order)."""
     try:
         b = TableBundle(iter(blocks), as_dataframe=as_df)
     except NotImplementedError:
         return {"exc": "NotImplementedError"}
     except UnboundLocalError:
         return {"exc": "UnboundLocalError"}
-    # map stored objects back to block indices (first unused index with that identity, in order)
+    except IndexError:
+        return {"exc": "IndexError"}
     order_ids = [id(x) for x in b]
     remaining = {}
     for i in range(n):
         if blocks[i][0].name == "TABLE":
-            remaining.setdefault(id(stored(i)), []).append(i)
-    tok = {}
+            obj = blocks[i][1]
+            remaining.setdefault(id(obj), []).append(i)
+            if hasattr(obj, "df"):
+                remaining.setdefault(id(obj.df), []).append(i + DF)
     seq = []
-    for pos, x in enumerate(b):
+    for x in b:
         lst = remaining.get(id(x), [])
         seq.append(lst.pop(0) if lst else -1)
     pos_of = {}
     for pos, x in enumerate(b):
         pos_of.setdefault(id(x), []).append(seq[pos])
-
-    def t(x):
-        # a stored object that occurs several times (same Table in two blocks) is reported by all its indices
-        lst = pos_of.get(id(x))
-        return lst if lst else [-1]
 
     keys_before = list(b._tables_named.keys())
     ans = []
@@ -188,13 +210,24 @@ def impl_run(TableBundle, NotUnique, blocks, as_df, qs, stored, n):
             elif k == "getattr":
                 ans.append(_one(getattr(b, q["n"]), pos_of))
             elif k == "getitem_int":
-                ans.append(seq[list(range(len(seq)))[q["i"]]] if False else _int_item(b, q["i"], seq))
+                ans.append(_int_item(b, q["i"], seq, order_ids))
+            elif k == "getitem":
+                ix = q["idx"]
+                if isinstance(ix, dict) and "s" in ix:
+                    ans.append(_one(b[ix["s"]], pos_of))
+                elif isinstance(ix, dict):
+                    ans.append(_int_item(b, ix["b"], seq, order_ids))
+                else:
+                    b[{"other:float": 1.0, "other:none": None, "other:slice": slice(0, 1)}[ix]]
+                    ans.append("NO-TYPE-ERROR")
         except KeyError:
             ans.append({"exc": "KeyError"})
         except AttributeError:
             ans.append({"exc": "AttributeError"})
         except IndexError:
             ans.append({"exc": "IndexError"})
+        except TypeError:
+            ans.append({"exc": "TypeError"})
         except NotUnique:
             ans.append({"exc": "TableNameNotUniqueInBundleError"})
         except Exception as e:  # noqa: BLE001 — any other class is reported as such and judged by the oracle
@@ -226,10 +259,10 @@ def _iterations_independent(b, order_ids):
     return True
 
 
-def _int_item(b, i, seq):
+def _int_item(b, i, seq, order_ids):
     x = b[i]
-    # position-exact: Python list indexing
-    return seq[i]
+    # position-exact: the object returned must be the one the iteration yields at that position
+    return seq[i] if id(x) == order_ids[i] else -1
 
 
 def _idx_seq(objs, pos_of):
@@ -251,7 +284,7 @@ def _one(x, pos_of):
 def oracle(abstract, impl, qs, out, case):
     """C20 evaluated from the block list alone (for block lists whose table names are all extractable)."""
     tabs = [a for a in abstract if a["t"]]
-    if any(a["src"] in ("stale", "fail") for a in tabs):
+    if any(a["src"] in ("stale", "fail", "noCell") for a in tabs):
         return  # outside the statement's domain: construction fails or uses a stale name (modelled, compared)
     if isinstance(impl, dict):
         out.fail("constructor raised on extractable table blocks", case, impl, None, key="ctor")
@@ -263,10 +296,16 @@ def oracle(abstract, impl, qs, out, case):
         out.fail("an iteration over the bundle did not yield every table in input order while another iteration "
                  "was in progress", case, impl, None, key="iter_interfere")
         return
-    order = [a["val"] for a in tabs]
+    # "as Tables, as table frames when requested, or as the alternative representation supplied"
+    as_df = case["as_dataframe"]
+
+    def tok(a):
+        return a["val"] + DF if (as_df and a["has_df"]) else a["val"]
+    order = [tok(a) for a in tabs]
     for q, a in zip(qs, impl):
         k = q["q"]
-        same = [t["val"] for t in tabs if k != "len" and "n" in q and t["src"]["name"] == q["n"]]
+        qn = q.get("n") if k != "getitem" else (q["idx"].get("s") if isinstance(q["idx"], dict) else None)
+        same = [tok(t) for t in tabs if qn is not None and t["src"]["name"] == qn]
         if k == "len":
             exp = len(order)
         elif k == "iter":
@@ -285,6 +324,15 @@ def oracle(abstract, impl, qs, out, case):
         elif k == "getitem_int":
             i = q["i"]
             exp = order[i] if -len(order) <= i < len(order) else {"exc": "IndexError"}
+        elif k == "getitem":
+            ix = q["idx"]
+            if isinstance(ix, str):
+                exp = {"exc": "TypeError"}       # neither a name nor a position
+            elif "s" in ix:
+                exp = same[0] if len(same) == 1 else {"exc": "TableNameNotUniqueInBundleError" if same else "KeyError"}
+            else:
+                i = int(ix["b"])                 # a bool is the integer 0 / 1
+                exp = order[i] if i < len(order) else {"exc": "IndexError"}
         if a != exp:
             out.fail(f"accessor {k} disagrees with the table blocks in input order", dict(case, query=q), a, exp,
                      key="accessor:" + k)
